@@ -1474,7 +1474,7 @@ reg_errcode_t tre_parse(tre_parse_ctx_t *ctx)
 					break;
 				case HAWK_T('x'):
 					ctx->re++;
-					if (ctx->re[0] != CHAR_LBRACE && ctx->re < ctx->re_end)
+					if (ctx->re < ctx->re_end && ctx->re[0] != CHAR_LBRACE)
 					{
 					/* HAWK */
 					#if 0
@@ -1498,12 +1498,12 @@ reg_errcode_t tre_parse(tre_parse_ctx_t *ctx)
 					#endif
 						long val = 0;
 						int tmp;
-						if ((tmp = xdigit_to_num(ctx->re[0])) >= 0 && ctx->re < ctx->re_end)
+						if (ctx->re < ctx->re_end && (tmp = xdigit_to_num(ctx->re[0])) >= 0)
 						{
 							val = val * 16 + tmp;
 							ctx->re++;
 						}
-						if ((tmp = xdigit_to_num(ctx->re[1])) >= 0 && ctx->re < ctx->re_end)
+						if (ctx->re < ctx->re_end && (tmp = xdigit_to_num(ctx->re[0])) >= 0)
 						{
 							val = val * 16 + tmp;
 							ctx->re++;
@@ -1543,7 +1543,7 @@ reg_errcode_t tre_parse(tre_parse_ctx_t *ctx)
 						int tmp;
 
 						ctx->re++;
-						while (ctx->re_end - ctx->re >= 0)
+						while (ctx->re < ctx->re_end)
 						{
 							if (ctx->re[0] == CHAR_RBRACE)
 								break;
@@ -1556,6 +1556,8 @@ reg_errcode_t tre_parse(tre_parse_ctx_t *ctx)
 							}
 							return REG_EBRACE;
 						}
+						if (ctx->re >= ctx->re_end) return REG_EBRACE; /* no closing brace */
+						ctx->re++; /* skip the closing brace */
 
 						result = tre_ast_new_literal(ctx->mem, (int)val, (int)val, ctx->position);
 						ctx->position++;
